@@ -64,7 +64,7 @@ def d_pop(I, s, k, *default):
     k = I.hashable(k)
     I.resolve_maybe(d, k)
     if k in d.d:
-        I.write(d, f'dict.pop({k!r})')
+        I.write(d, f'dict.pop({k!r})', key=k)
         return d.d.pop(k)
     if default:
         return default[0]
@@ -74,7 +74,7 @@ def d_pop(I, s, k, *default):
 def d_setitem(I, s, k, v):
     d = _dictdata(I, s)
     k = I.hashable(k)
-    I.write(d, f'item {k!r}')
+    I.write(d, f'item {k!r}', key=k)
     d.maybe.pop(k, None)
     d.d[k] = v
 
